@@ -498,6 +498,12 @@ func checkC17(c *Ctx) {
 		must(os.WriteFile(yf, yb, 0o644))
 		defer os.Remove(jf)
 		defer os.Remove(yf)
+		yInJ := filepath.Join(files, sanitize(cs.Name)+"-y."+pickStr(r, "json", "JSON"))
+		jInY := filepath.Join(files, sanitize(cs.Name)+"-j.yaml")
+		must(os.WriteFile(yInJ, yb, 0o644))
+		must(os.WriteFile(jInY, jb, 0o644))
+		defer os.Remove(yInJ)
+		defer os.Remove(jInY)
 		goVal := docToGo(doc)
 		type res struct {
 			name string
@@ -536,6 +542,10 @@ func checkC17(c *Ctx) {
 				run(tag+".ValidateFile(.yaml)", func() error { return s.ValidateFile(yf) }),
 				run(tag+".ValidateReader(json)", func() error { return s.ValidateReader(mkReader()) }),
 			}
+			// (the extension is a name: what a file holds decides how it is read)
+			out = append(out,
+				run(tag+".ValidateFile(.json holding the yaml encoding)", func() error { return s.ValidateFile(yInJ) }),
+				run(tag+".ValidateFile(.yaml holding the json encoding)", func() error { return s.ValidateFile(jInY) }))
 			if full {
 				out = append(out,
 					run(tag+".ReadAndValidate(json)", func() error {
